@@ -1466,6 +1466,17 @@ class TransferSyntaxSubItem(PDUItem):
 
         return 0
 
+    @staticmethod
+    def _wrap_encode_str(value: str | None) -> bytes:
+        """Return `value` as ASCII encoded :class:`bytes`.
+
+        A received *Transfer Syntax Name* may be empty (it is not significant
+        when the presentation context was rejected), in which case
+        ``transfer_syntax_name`` is ``None`` and the field is encoded with
+        zero length.
+        """
+        return PDUItem._wrap_encode_str(value or "")
+
     def __str__(self) -> str:
         """Return a string representation of the Item."""
         s = [
